@@ -522,6 +522,11 @@ class MapfileTransformer(Transformer):
         t[0].value = f"{t[0].value} ^ {t[1].value}"
         return t[0]
 
+    def mod(self, t):
+        assert len(t) == 2
+        t[0].value = f"( {t[0].value} % {t[1].value} )"
+        return t[0]
+
     def neg(self, t):
         assert len(t) == 1
         t[0].value = f"-{t[0].value}"
